@@ -311,4 +311,13 @@ def r13_6(run):
     run.floor(2)
 
 
-RULES = [("R13.1", r13_1), ("R13.2", r13_2), ("R13.3", r13_3), ("R13.4", r13_4), ("R13.5", r13_5), ("R13.6", r13_6)]
+def r13_7(run):
+    """every step of a time series is a stand-alone calculation: it starts from fresh internal data unless the user asked for reuse
+    (shared with C07 R7.3 / C12 R12.5: the life cycle of net['_internal_data'] in the stage functions, and init_options only ever
+    switching reuse off)"""
+    from .c07 import internal_data_lifecycle, reuse_coupling
+    internal_data_lifecycle(run)
+    reuse_coupling(run)
+
+
+RULES = [("R13.1", r13_1), ("R13.2", r13_2), ("R13.3", r13_3), ("R13.4", r13_4), ("R13.5", r13_5), ("R13.6", r13_6), ("R13.7", r13_7)]
